@@ -55,6 +55,9 @@ type Mesh struct {
 	derived []Derived
 	rxA     []Rx
 
+	icmpMu   sync.Mutex
+	icmpSess map[uint64]*icmpExitSess // harness-played ICMP exit, by stream id
+
 	cleanup []func()
 }
 
@@ -266,6 +269,19 @@ func Start() (*Mesh, error) {
 		m.rxA = append(m.rxA, Rx{Peer: p, Frame: cp})
 		m.mu.Unlock()
 		A.VerifProcessFrame(p, f)
+	})
+	// B's side: ICMP tunnels are served by the harness itself (the sandbox has
+	// no ICMP sockets, so B could only answer ICMP_OPEN_ERR); everything else
+	// goes to B's own dispatcher.
+	m.icmpSess = map[uint64]*icmpExitSess{}
+	B := m.B
+	B.VerifPeerManager().SetFrameCallback(func(p identity.AgentID, f *protocol.Frame) {
+		switch f.Type {
+		case protocol.FrameICMPOpen, protocol.FrameICMPEcho, protocol.FrameICMPClose:
+			m.icmpExitFrame(p, f)
+		default:
+			B.VerifProcessFrame(p, f)
+		}
 	})
 	pm.DisconnectAll()
 	WaitFor(5*time.Second, func() bool { return m.B.Stats().PeerCount == 0 })
